@@ -87,6 +87,11 @@ def run(ctx):
     for b in (singles if thorough else rnd.sample(singles, min(len(singles), 40))):
         s, dd = rnd.choice(combos)
         scheds.append({"ops": b["ops"], "delivered": b["delivered"], "err": b["err"], "suite": s, "dir": dd, "plan": "small", "rcv_closewrite": True})
+    # far into a connection: the same single operations (and the untouched stream) with the direction's counters at 2^32 - 2, so
+    # that the three planned records carry the sequence number into its upper half (replays of earlier records must still fail)
+    for b in [{"ops": [], "delivered": 3, "err": False}] + (singles if thorough else rnd.sample(singles, min(len(singles), 24))):
+        for (s, dd) in (combos if not b["ops"] else [rnd.choice(combos)]):
+            scheds.append({"ops": b["ops"], "delivered": b["delivered"], "err": b["err"], "suite": s, "dir": dd, "plan": "small", "seq_start": 4294967294})
     # 3. the abstract Flip instantiated at every bit (thorough) / one bit of every byte (quick) of record 2
     nbits = {}
     for (s, dd) in (combos if thorough else [combos[ctx.seed % 4], combos[(ctx.seed + 1) % 4]]):
@@ -196,8 +201,8 @@ def run(ctx):
         t = [dict(e) for e in traces[0]]
         hit = False
         for e in t:
-            if e["ev"] == "enc" and e["seq"] >= 1:
-                e["seq"] += 1
+            if e["ev"] == "enc" and e["seq"][7] >= 1:
+                e["seq"] = e["seq"][:7] + [e["seq"][7] + 1]
                 hit = True
                 break
         if hit:
